@@ -89,8 +89,6 @@ def run_model(ck, wd, calls, maxs, tier, legacy_check=True):
     callset = '{' + ', '.join('"%s"' % c for c in calls) + '}'
     cfg = re.sub(r'MaxS = \d+', 'MaxS = %d' % maxs, base)
     cfg = re.sub(r'Calls = \{[^}]*\}', 'Calls = ' + callset, cfg)
-    if maxs >= 4:
-        cfg = cfg.replace('NCols = {0, 1, 3}', 'NCols = {0, 1, 3}').replace('NBlocks = {0, 1, 2, 3, 1000000}', 'NBlocks = {0, 1, 2, 1000000}')
     open(os.path.join(wd, 'MC_NTT_run.cfg'), 'w').write(cfg)
     r = tlc(wd, 'MC_NTT', 'MC_NTT_run.cfg', timeout=3000, xmx='24g', tag='ntt' + ''.join(calls))
     ck.add_tlc(r, 'MC_NTT %s MaxS=%d: all configurations (size<=domain, nphase/nblock incl. out of range, dst x buffer modes), all basis inputs over F_97' % (callset, maxs))
@@ -141,7 +139,7 @@ def run_property(pid, calls, tier, seed, replay_path, doc_assumptions=()):
         j = json.load(open(replay_path))
         cases = [tuple(c) for c in j['case']['cases']]
     else:
-        run_model(ck, wd, calls, 3 if tier == 'quick' else 4, tier)
+        run_model(ck, wd, calls, 3 if tier == 'quick' else (4 if 'ext' in calls else 5), tier)
         cases = enum_cases(calls, smax, tier, seed, sub=(3 if tier == 'quick' else 1))
     v, exe, tpath = replay(ck, wd, cases, seed, smax, '%s configurations x seeded matrix (%d cases, domain <= %d)' % ('/'.join(calls), len(cases), 1 << smax))
     if not replay_path:
